@@ -160,27 +160,70 @@ def read_lift(src):
     fn = fns[0]
     names, _ = C.param_names(fn["params"])
     body = fn["body"].strip()
+    # two spellings are read: the fields taken from the parameter (`msg.id`, … `match msg.msg {..}`), or the parameter
+    # destructured first (`let SubMsg { id, payload, msg: m, gas_limit, reply_on } = p;`) and the locals used; the `match` may
+    # sit in a private one-parameter helper of the same file that is applied to the message (`helper::<C>(m)`)
+    if len(names) != 1:
+        t["notes"].append("customize_msg does not take exactly one parameter")
+        return t
+    par = names[0]
+    alias = {}
+    dm = re.match(r"let\s+SubMsg\s*\{", body)
+    if dm:
+        dc = match_close(body, dm.end() - 1)
+        rest = body[dc + 1:].lstrip()
+        em = re.match(r"=\s*(%s)\s*;" % C.IDENT, rest)
+        if dc < 0 or not em or em.group(1) != par:
+            t["notes"].append("the destructuring at the start of customize_msg is not `let SubMsg { .. } = <parameter>;`")
+            return t
+        for fld in split_top(body[dm.end():dc]):
+            f = squash(fld)
+            if not f or f == "..":
+                continue
+            fm = re.match(r"^(%s)(?::(%s))?$" % (C.IDENT, C.IDENT), f)
+            if not fm:
+                t["notes"].append("field `%s` of the destructuring not understood" % f)
+                return t
+            alias[fm.group(1)] = fm.group(2) or fm.group(1)
+        body = rest[em.end():].strip()
+    src_of = lambda name: alias[name] if alias else par + "." + name      # noqa: E731
     m = re.match(r"SubMsg\s*\{", body)
     c = match_close(body, body.index("{")) if m else -1
-    if not m or c != len(body) - 1 or names != ["msg"]:
-        t["notes"].append("body of customize_msg is not a single SubMsg literal over parameter `msg`")
+    if not m or c != len(body) - 1:
+        t["notes"].append("body of customize_msg is not a single SubMsg literal over its parameter")
         return t
     ok = True
     for fld in split_top(body[m.end():c]):
-        fm = re.match(r"(%s)\s*:\s*(.*)$" % C.IDENT, fld, re.S)
+        fm = re.match(r"(%s)\s*(?::\s*(.*))?$" % C.IDENT, fld.strip(), re.S)
         if not fm:
             ok = False
             t["notes"].append("field `%s` of the SubMsg literal not understood" % squash(fld))
             continue
-        name, expr = fm.group(1), fm.group(2).strip()
+        name, expr = fm.group(1), (fm.group(2) or fm.group(1)).strip()
         if name != "msg":
             tag = name if name in ("id", "payload", "gas_limit", "reply_on") else "other"
-            t["subFields"].append((tag, squash(expr) == "msg." + name))
+            try:
+                same = squash(expr) == src_of(name)
+            except KeyError:
+                same = False
+            t["subFields"].append((tag, same))
             continue
+        try:
+            scrut = src_of("msg")
+        except KeyError:
+            scrut = "?"
         mb = match_block(expr)
-        if mb is None or mb[0] != "msg.msg":
+        if mb is None:
+            hm = re.match(r"^(%s)(?:::<[^>]*>)?\((.*)\)$" % C.IDENT, squash(expr))
+            helper = [f for f in C.find_fns(src, 0, len(src)) if hm and f["name"] == hm.group(1)]
+            if hm and squash(hm.group(2)) == scrut and len(helper) == 1:
+                hn, _ = C.param_names(helper[0]["params"])
+                hb = match_block(helper[0]["body"].strip())
+                if len(hn) == 1 and hb is not None and hb[0] == hn[0]:
+                    mb = (scrut, hb[1])
+        if mb is None or mb[0] != scrut:
             ok = False
-            t["notes"].append("the msg field is not `match msg.msg { … }`")
+            t["notes"].append("the msg field is not `match <the sub-message's msg> { … }` (directly or through a one-parameter helper)")
             continue
         arms = split_arms(mb[1])
         if arms is None:
